@@ -3,6 +3,7 @@ package checks
 import (
 	"encoding/json"
 	"fmt"
+	"path/filepath"
 	"regexp"
 	"sort"
 	"strconv"
@@ -430,6 +431,12 @@ func mJudgeAll(r *b1.Result) mVerdicts {
 		ln, _ := strconv.Atoi(w[2])
 		if !mine[ln] {
 			continue
+		}
+		// a position is a place in the setup file: the file it names must be that file
+		if w[1] != r.SetupPath && w[1] != filepath.Base(r.SetupPath) {
+			if a, err := filepath.Abs(filepath.Join(filepath.Dir(r.SetupPath), w[1])); err != nil || a != r.SetupPath {
+				continue
+			}
 		}
 		path := w[4]
 		if i := strings.Index(path, "."); i >= 0 {
